@@ -1,6 +1,6 @@
 """C19 - execution control (start / stop / abort / assembly step / line step / leave scope) follows its state machine,
 sequentially and with a second thread."""
-import json, os, sys
+import json, os, re, sys
 import vcommon as V
 import vmcommon as VM
 from vmcommon import N, B, S, Var, Arr, Code, Nul, Un, Bin, E, Asg, Loc, Prog
@@ -94,12 +94,13 @@ def main(replay=None):
     scr = scripts()
     # model text + listing, implementation listing + positions
     rc, mt, _ = V.run_lines([drv, "ctl-text"], [p for _, p, _, _ in scr])
-    texts, diag = {}, {}
+    texts, diag, field = {}, {}, {}
     lines = []
     for (name, prog, br, fails), m in zip(scr, mt):
         f = m.split("\t")
         text = multiline(V.unhx(f[0]).decode("latin-1"), br)
         texts[name] = (prog, text, f[1], fails)
+        field[name] = V.hx(text)
         lines.append(V.hx(text))
     rc, il, _ = V.run_lines([hctl, "lines"], lines)
     usable = []
@@ -111,6 +112,45 @@ def main(replay=None):
             continue
         diag[name] = f[1]
         usable.append(name)
+
+    # scripts spread over several files (#include): consecutive instructions with EQUAL line numbers in DIFFERENT files.
+    # layout: list of segments, ("main", [statement indices]) or (file name, [statement indices]) for an include at that place
+    def S_(n, v): return Asg(n, N(v))
+    multi = [
+        ("mf-include-after-line1", [S_("a", 1), S_("b", 2), S_("c", 3), S_("d", 4), S_("e", 5)], [("main", [0]), ("inc.sqf", [1, 2]), ("main", [3, 4])]),
+        ("mf-include-first", [S_("x", 1), S_("y", 2), S_("p", 1), S_("q", 1), S_("r", 2)], [("a.sqf", [0, 1]), ("main", [2]), ("b.sqf", [3]), ("main", [4])]),
+        ("mf-two-includes-in-a-row", [E(Un("diag_log", N(1))), E(Un("diag_log", N(2))), E(Un("diag_log", N(3))), S_("z", 9)],
+         [("one.sqf", [0]), ("two.sqf", [1]), ("main", [2, 3])]),
+    ]
+    flat = {}          # name -> [(line, file index)] of the top-level instructions
+    stmts = sorted({st for _, sts, _ in multi for st in sts})
+    rc, stt, _ = V.run_lines([drv, "ctl-text"], [Prog(st) for st in stmts] + [Prog(*sts) for _, sts, _ in multi])
+    stext = {st: V.unhx(t.split("\t")[0]).decode("latin-1") for st, t in zip(stmts, stt)}
+    for (name, sts, layout), whole in zip(multi, stt[len(stmts):]):
+        main_lines, files = [], []
+        for seg, idx in layout:
+            if seg == "main":
+                main_lines += [stext[sts[i]] + ";" for i in idx]
+            else:
+                main_lines.append('#include "/v/%s"' % seg)
+                files.append((seg, "".join(stext[sts[i]] + ";\n" for i in idx)))
+        main_text = "\n".join(main_lines) + "\n"
+        prog = Prog(*sts)
+        fld = ";".join([V.hx(main_text)] + ["%s=%s" % (V.hx(fn), V.hx(c)) for fn, c in files])
+        rc, il1, _ = V.run_lines([hctl, "lines"], [fld])
+        f = il1[0].split("\t")
+        shown = "main.sqf:\n" + main_text + "".join("%s:\n%s" % (fn, c) for fn, c in files)
+        if len(f) != 2 or f[0] != whole.split("\t")[1]:
+            run.violation("instruction listing of a multi-file control script differs between model and implementation (machinery)",
+                          {"script": shown, "model": whole.split("\t")[1], "impl": il1[0], "broken": "compile_block vs preprocessor + parser"}, found_input=False)
+            continue
+        texts[name] = (prog, shown, f[0], False)
+        field[name] = fld
+        diag[name] = f[1]
+        flat[name] = [(int(x.split(".")[0]), int(x.split(".")[3])) for x in f[1].split(",")]
+        usable.append(name)
+    alpha_of = {}
+    crossings = {"line steps that ended at a file boundary between equal line numbers": 0}
 
     # ------------------------------------------------------------- sequential: exhaustive action trees
     trees = []     # (base, script name, depth)
@@ -137,12 +177,15 @@ def main(replay=None):
         for nm in ("nested", "loop", "handled", "oneline"):
             trees += [("L", nm, side + (1 if thorough else 0))]
         trees += [("L", "bad1", side + 1), ("X", "handled", side), ("F", "nested", side)]
+        for nm in flat:
+            trees += [("L", nm, 7), ("L", nm, 3 + (1 if thorough else 0)), ("F", nm, 2)]
+            alpha_of[("L", nm, 7)] = "lp"
         # scripts that ask for exit themselves (halt): outside the modelled fragment, judged by the table only
         raw_trees += [("L", "a = 1; halt;\nb = 2; c = 3", 4, None), ("L", "a = 1; call { halt; b = 2 };\nc = 3", 4, None)]
     trees = [t for t in trees if t[1] in usable]
-    hl = ["%s\t%s\t%d\t%s" % (b, V.hx(texts[nm][1]), d, ALPHABET) for b, nm, d in trees]
-    ml = ["repaired\t%s\t%s\t%s\t%d\t%s" % (b, texts[nm][0], diag[nm], d, ALPHABET) for b, nm, d in trees]
-    al = ["asis\t%s\t%s\t%s\t%d\t%s" % (b, texts[nm][0], diag[nm], d, ALPHABET) for b, nm, d in trees]
+    hl = ["%s\t%s\t%d\t%s" % (b, field[nm], d, alpha_of.get((b, nm, d), ALPHABET)) for b, nm, d in trees]
+    ml = ["repaired\t%s\t%s\t%s\t%d\t%s" % (b, texts[nm][0], diag[nm], d, alpha_of.get((b, nm, d), ALPHABET)) for b, nm, d in trees]
+    al = ["asis\t%s\t%s\t%s\t%d\t%s" % (b, texts[nm][0], diag[nm], d, alpha_of.get((b, nm, d), ALPHABET)) for b, nm, d in trees]
     rc, impl, _ = V.run_lines_parallel([hctl, "tree"], hl + ["%s\t%s\t%d\t%s" % (b, V.hx(t), d, ALPHABET) for b, t, d, a in raw_trees if a is None],
                                        shards=max(1, len(hl) + len(raw_trees)), timeout=3000)
     raw_impl = impl[len(hl):]
@@ -155,7 +198,7 @@ def main(replay=None):
         f = line.split(";")
         return ";".join([f[0]] + ["%s=%s" % (actions[:k + 1], o) for k, o in enumerate(f[1:])])
     if paths:
-        rc, pi, _ = V.run_lines([hctl, "seq"], ["%s\t%s\t%s" % (b, V.hx(texts[nm][1]), a) for b, nm, a in paths])
+        rc, pi, _ = V.run_lines([hctl, "seq"], ["%s\t%s\t%s" % (b, field[nm], a) for b, nm, a in paths])
         rc, pm, _ = V.run_lines([drv, "ctl-seq"], ["repaired\t%s\t%s\t%s\t%s" % (b, texts[nm][0], diag[nm], a) for b, nm, a in paths])
         rc, pa, _ = V.run_lines([drv, "ctl-seq"], ["asis\t%s\t%s\t%s\t%s" % (b, texts[nm][0], diag[nm], a) for b, nm, a in paths])
         # corpus / replay cases are judged first
@@ -242,10 +285,20 @@ def main(replay=None):
                            " - the implementation behaves as the model of the unrepaired code (see proposed_fixes/C19-*)"
                     report("asis:" + act, what, rep)
                 elif path[-1] == "l" and fo is not None:
-                    report("line", "line_step stops at a different instruction than the first one of another line", rep)
+                    report("line", "line_step stops at a different instruction than the first one of another (file, line)", rep)
                 else:
                     rep["broken"] = "correspondence CtlDefs.execute_ctl vs runtime::execute (sequential_table, line_step_stops_at_line_change)"
                     report("corr", "implementation and model disagree on a control action (state-machine oracle satisfied)", rep, found=False)
+
+            elif path[-1] == "l" and nm in flat and prev is not None and fo is not None:
+                # a correct line step over a multi-file script: did it end at a file boundary between equal line numbers?
+                def top_pos(fd):
+                    m_ = re.match(r"^[-\d]+:\d+:(\d+)/\d+$", fd["rest"]) if fd["nctx"] == 1 else None
+                    return int(m_.group(1)) if m_ else None
+                pa, pb = top_pos(prev), top_pos(fo)
+                T = flat[nm]
+                if pa is not None and pb is not None and pa < pb < len(T) and T[pa][1] != T[pb][1] and T[pa][0] == T[pb][0]:
+                    crossings["line steps that ended at a file boundary between equal line numbers"] += 1
 
     # ------------------------------------------------------------- concurrent: executor parked inside an instruction
     marks = 8
@@ -337,9 +390,12 @@ def main(replay=None):
                        "base states (nothing loaded / loaded / run to the end / failed with an error), each node in a forked child of its parent; shorter "
                        "trees over scripts with nested scopes, loops, a handled error; result, runtime_state(), number of contexts, active context, "
                        "operand count and frame positions after every action vs CtlDefs.execute_ctl (repaired) and vs the state-machine table; "
+                       "scripts spread over several files by #include (consecutive instructions with equal line numbers in different files; the model's line is the pair (file, line)): "
+                       "line_step / assembly_step trees of depth 7 plus full-alphabet trees; "
                        "concurrent: an executor thread inside execute(start) parked in the k-th call of an operator registered by the harness, "
                        "controller sequences of length <= 2, results vs the model with state = running and the run flag set, instructions executed "
                        "after an accepted stop/abort vs theorem stop_abort_bounded; distinct = (base, script, observation) / (park point, actions)")
+    run.cov["multi_file_line_steps"] = crossings
     run.cov["input_distribution"] = dist
     run.cov["samples"] = samples
     run.cov["trusted_base"] = ["Coq 8.16.1 kernel (vm_compute: certified reachability of the interleaving model, table checks)",
